@@ -15,7 +15,7 @@ RULE = ("request specs: 9 methods x unicode paths over an alphabet with reserved
         "query dicts and form dicts whose keys/values contain & = + % # ? ; space and non-ASCII x header sets (token names in "
         "mixed case, latin-1 values with ': ', blanks, empty) x raw / JSON / form bodies, with and without explicit "
         "Content-Length; built by the real Requester, parsed by the real Requestant + Server.buildEnviron; a second stream "
-        "all requests of a history are also fed to ONE Requestant and to a real WSGI Server connection (whole, one request per receive, or - half of the cases - cut into 2-4 receives at arbitrary byte positions incl. right after a header line, between CR and LF and inside header names/values, with a parse()/service() between receives; in a quarter of the cases after a hand-written chunked / Content-Length / cookie-bearing first request) and every parse is compared with the parse of the same request alone; each request is followed by 0-3 rebuild() calls on the same Requester (no arguments, or only some of method / path / qargs / headers / body, the rest carried over), every build parsed and compared; a further stream leaves the well-formed domain (path with ? or #, // prefix, control characters, CR/LF in header values) where only "
+        "40% of the histories go through the application API instead of the Requester: a real Client on a fake connected socket, requests queued with Client.request(**subset) where each of method / path / qargs / headers / body|data|fargs is independently given or omitted (incl. empty dict / list / body meant to clear) and sent by Client.service(); all requests of a history are also fed to ONE Requestant and to a real WSGI Server connection (whole, one request per receive, or - half of the cases - cut into 2-4 receives at arbitrary byte positions incl. right after a header line, between CR and LF and inside header names/values, with a parse()/service() between receives; in a quarter of the cases after a hand-written chunked / Content-Length / cookie-bearing first request) and every parse is compared with the parse of the same request alone; each request is followed by 0-3 rebuild() calls on the same Requester (no arguments, or only some of method / path / qargs / headers / body, the rest carried over), every build parsed and compared; a further stream leaves the well-formed domain (path with ? or #, // prefix, control characters, CR/LF in header values) where only "
         "model/implementation agreement is compared. Non-trivial: a reserved or non-ASCII character in path, key, value or header value")
 MODELLED = ["urllib.parse.quote/quote_plus/unquote/unquote_plus/urlsplit/parse_qsl and UTF-8 coding (Gallina functions; swept against CPython in C16's and this driver's extra())",
             "json.dumps of the data argument (external: the encoded bytes are part of the request spec)",
@@ -98,6 +98,46 @@ def _rebuild_args(op):
         else:
             kw["fargs"] = dict((k, v) for k, v in b[1])
     return kw
+
+
+def _client_wires(case):
+    """The same history through the application-level API: a Client (fake connected socket) whose requests are
+    queued with Client.request(**only the given arguments) and sent by Client.service(); after every request a
+    minimal response is fed so that the next one goes out.  -> list of wire bytes or exception text per build"""
+    from hio.core.http import clienting
+    from hio.base import tyming
+    from hio import help
+    from harness.drivers.c16 import FakeSock
+    b = case["body"]
+    tymist = tyming.Tymist()
+    cl = clienting.Client(hostname=HOST, port=PORT, method=case["method"], path=case["path"],
+                          qargs=dict((k, v) for k, v in case["qargs"]),
+                          headers=help.Hict([(k, v) for k, v in case["headers"]]), tymth=tymist.tymen())
+    sock = FakeSock((HOST, PORT), 50000)
+    cl.connector.cs = sock
+    cl.connector.accepted = True
+    out = []
+    ops = [{"body": b}] + list(case.get("ops", []))
+    for i, op in enumerate(ops):
+        kw = _rebuild_args(op)
+        if i == 0 and b[0] == "raw" and not b[1]:
+            kw = {}
+        before = len(sock.sent)
+        try:
+            cl.request(**kw)
+            cl.service()
+        except Exception as ex:
+            out += [type(ex).__name__ + ": " + str(ex)[:100]] * (len(ops) - i)
+            break
+        out.append(bytes(sock.sent[before:]))
+        sock.inq.append(b"HTTP/1.1 200 OK\r\nContent-Length: 0\r\n\r\n")
+        try:
+            cl.service()
+            cl.responses.clear()
+        except Exception as ex:
+            out += ["response: " + type(ex).__name__] * (len(ops) - i - 1)
+            break
+    return out
 
 
 def specs(case):
@@ -224,7 +264,15 @@ def run_impl(case):
     sp = specs(case)
     with Recorder() as rec:
         rq = None
+        cwires = _client_wires(case) if case.get("via") == "client" else None
         for i, spec in enumerate(sp):
+            if cwires is not None:
+                w = cwires[i] if i < len(cwires) else "not sent"
+                if isinstance(w, str) or not w:
+                    steps.append({"built": None, "parsed": None, "build_exc": w or "nothing sent"})
+                    continue
+                steps.append(_observe(w, spec["body"][0] == "form" and spec["method"] != "GET"))
+                continue
             try:
                 if i == 0:
                     rq = _requester(case)
@@ -569,10 +617,23 @@ FIRST_RAW = [
 ]
 
 
-def _op(rng):
-    """arguments of one rebuild(): nothing, or only some fields (the rest is carried over)"""
+def _op(rng, independent=False):
+    """arguments of one rebuild() / Client.request(): nothing, or only some fields (the rest is carried over)"""
     k = rng.random()
     op = {}
+    if independent:
+        # every argument independently given or omitted (all 2^k subsets occur), with clearing values
+        new = _spec(rng)
+        for f in ("method", "path", "qargs", "headers"):
+            if rng.random() < 0.5:
+                op[f] = new[f]
+        if "qargs" in op and rng.random() < 0.3:
+            op["qargs"] = []
+        if "headers" in op:
+            op["headers"] = [] if rng.random() < 0.3 else [h for h in op["headers"] if h[0].lower() != "content-length"]
+        if rng.random() < 0.5:
+            op["body"] = new["body"] if rng.random() < 0.8 else ["raw", ""]
+        return op
     if k < 0.3:
         return op                                    # rebuild() with no arguments: resend
     new = _spec(rng)
@@ -598,6 +659,10 @@ def generate(rng, tier):
             # an explicit Content-Length would be carried over to bodies of another length
             c["headers"] = [h for h in c["headers"] if h[0].lower() != "content-length"]
             c["ops"] = [_op(rng) for _ in range(nops)]
+        if rng.random() < 0.4:      # the application-level differential API: Client.request(**subset)
+            c["via"] = "client"
+            c["headers"] = [h for h in c["headers"] if h[0].lower() != "content-length"]
+            c["ops"] = [_op(rng, independent=True) for _ in range(rng.choice([1, 2, 3, 4]))]
         c["pipelined"] = rng.random() < 0.5
         if rng.random() < 0.5:      # the stream arrives in 2-4 fragments at arbitrary byte positions
             c["cuts"] = [[rng.choice(["frac", "hdr", "hdr", "crlf", "mid", "pre"]), rng.randrange(10000)]
@@ -639,6 +704,11 @@ def directed():
         R(path="/after-chunked", first_raw=FIRST_RAW[0].hex(), ops=[{"method": "POST", "body": ["raw", b"abc".hex()]}], pipelined=True),
         R(path="/after-length", first_raw=FIRST_RAW[1].hex(), ops=[{}], pipelined=False),
         R(method="POST", path="/after-cookies", first_raw=FIRST_RAW[2].hex(), body=["raw", b"q".hex()], ops=[{"method": "GET"}], pipelined=True),
+        # the application-level differential API: Client.request(**only some arguments)
+        R(path="/c", qargs=[["old", "1"]], via="client", ops=[{"qargs": [["new", "2"]]}, {"qargs": []}, {}, {"path": "/d e"}]),
+        R(method="POST", path="/c", qargs=[["a", "b"]], headers=[["X-A", "1"]], body=["json", {"k": 1}], via="client",
+          ops=[{"method": "PUT"}, {"headers": []}, {"body": ["form", [["f", "g h"]]]}, {"qargs": [["x y", "&"]], "headers": [["X-B", "2"]]}]),
+        R(path="/c", via="client", ops=[{"method": "DELETE", "path": "/é", "qargs": [["k", "v"]], "headers": [["Accept", "*/*"]], "body": ["raw", b"zz".hex()]}, {}]),
         # the head arrives in several receives: after a header line, between CR and LF, inside a name / value
         R(method="POST", path="/frag", headers=[["X-One", "1"], ["X-Two", "22"]], body=["raw", b"payload".hex()], cuts=[["hdr", 1]]),
         R(method="POST", path="/frag", headers=[["X-One", "1"], ["X-Two", "22"]], body=["raw", b"payload".hex()], cuts=[["hdr", 2], ["hdr", 3]], ops=[{}]),
